@@ -1,11 +1,11 @@
 CONSTANTS Clients = {1, 2}  SrvUid = 0  SrvGid = 0
+  CreateAsFound = FALSE
   ShmFiles = {1}  SockFiles = {7}
 CONSTANT Uids <- MC2Uids
 CONSTANT Gids <- MC2Gids
 CONSTANT Modes <- MC2Modes
 CONSTANT Errs <- MC2Errs
 SPECIFICATION MSpec
-CONSTRAINT NoKF_Mode
 INVARIANT TypeOK
 INVARIANT AcceptArgsAreKernelCreds
 INVARIANT RefusalReported
